@@ -125,6 +125,10 @@ def replay(rec):
         if sc['post'] == 'p': quiet(ocp.set_value, a.p, 3)
         elif sc['post'] == 'q': quiet(ocp.set_value, a.q, 3)
         elif sc['post'] == 'gx': quiet(ocp.set_initial, a.x, ca.DM(ramp(3, N + 1)).T)
+        elif sc['post'] == 'edit': quiet(ocp.subject_to, a.u <= 50)
+        if sc['post'] == 'edit':
+            # the edit re-transcribes: sampled expressions of the earlier transcription are not valid any more
+            argl = [argexpr[n]() for n in args]; resl = results_of(a)
         # ... but a function made afterwards (same name, same expression objects) works on the values current then
         if sc.get('remake'): f = quiet(lambda: ocp.to_function('f', argl, resl))
         argval = {'p': lambda: sc['vals']['p'], 'q': lambda: sc['vals']['q'],
@@ -134,6 +138,7 @@ def replay(rec):
         ra = [np.array(r).reshape(-1) for r in (ra if isinstance(ra, (list, tuple)) else [ra])]
         b = quiet(mk, sc['meth'], sc['iters'], sc.get('scaled', False), sc.get('cat', False))
         quiet(assign, b, data)
+        if sc['post'] == 'edit': quiet(b.ocp.subject_to, b.u <= 50)
         try:
             sol = quiet(b.ocp.solve)
         except Exception:
